@@ -16,7 +16,7 @@ PROPS["C07"] = dict(
     quick=[("asan", 8, 400), ("plain0", 4, 400)],
     thorough=[("asan", 16, 6000), ("plain0", 16, 6000), ("plain", 16, 6000), ("memcheck", 8, 20, {"budget": 900})],
     stack_mb=256,
-    floors={"quick": {"inner_handled_outer_normal": 1, "propagated_2_levels": 1, "throw_from_handler": 1,
+    floors={"quick": {"kind_pairs": 400, "inner_handled_outer_normal": 1, "propagated_2_levels": 1, "throw_from_handler": 1,
                       "uncaught_child_runs": 20, "lexical_programs": 100, "deep_nests": 4}},
     rule="case = 1-4 generated try/throw/catch program trees (<=60 nodes, depth<=12, 8 filter sets over 4 exception "
          "kinds, throws from bodies, called functions and handlers) executed with the real macros, or one of 5 "
@@ -261,7 +261,7 @@ PROPS["C06"] = dict(
                "the latest at teardown. Probe destructors allocate nothing.",
     quick=[("asan", 16, 45), ("plain", 8, 90)],
     thorough=[("asan", 16, 900), ("plain", 16, 3000), ("memcheck", 8, 3, {"budget": 900})],
-    floors={"quick": {"garbage_pairs_owner_swept_before_owned": 20, "garbage_pairs_owned_swept_before_owner": 20,
+    floors={"quick": {"garbage_pairs_owner_swept_before_owned": 20, "boxes_made_inside_stop_window": 100, "boxes_owning_a_raw_object": 100, "containers_of_boxes_inside_stop_window": 100, "garbage_pairs_owned_swept_before_owner": 20,
                       "deletions_inside_stop_window": 10, "allocations_inside_stop_window": 10,
                       "worker_teardowns_with_live_garbage": 50, "process_teardowns_with_live_garbage": 50,
                       "del_root": 20, "del_raw": 20, "del_of_box": 10, "containers_of_boxes": 20,
